@@ -991,6 +991,10 @@ def check_vector_constructor(run, tree):
 
     def state(v):
         return {c: (a.origin, a.unit.name) for c, a in vector_components(tree, v, hooks).items()}
+
+    def _typed(a, dt):
+        a.dtype = dt
+        return a
     cases = [
         ("three Arrays, same unit and shape", lambda: dict(x=A_("X"), y=A_("Y"), z=A_("Z")), {"x": ("X", "m"), "y": ("Y", "m"), "z": ("Z", "m")}, True),
         ("two Arrays", lambda: dict(x=A_("X"), y=A_("Y")), {"x": ("X", "m"), "y": ("Y", "m")}, False),
@@ -1001,6 +1005,10 @@ def check_vector_constructor(run, tree):
         ("Arrays plus an explicit unit", lambda: dict(x=A_("X"), y=A_("Y"), unit="s"), "raises ValueError", False),
         ("raw values with a unit", lambda: dict(x=RawTok("X"), y=RawTok("Y"), z=RawTok("Z"), unit="s"),
          {"x": ("X", "s"), "y": ("Y", "s"), "z": ("Z", "s")}, True),
+        # components of different dtypes: each keeps the buffer it was given (no cast to the dtype of x: a cast is a COPY, and the Vector
+        # would stop sharing its data with the Arrays it was built from / with its own slices)
+        ("Arrays of different dtypes (float64, float32, int64)", lambda: dict(x=A_("X"), y=_typed(A_("Y"), "float32"), z=_typed(A_("Z"), "int64")),
+         {"x": ("X", "m"), "y": ("Y", "m"), "z": ("Z", "m")}, True),
     ]
     for label, mk, want, nontrivial in cases:
         construct = "%s.__init__[%s]" % (VECTOR_Q, label)
